@@ -1187,6 +1187,12 @@ func (pc *PartitionContext) UpdateAllocation(alloc *objects.Allocation) (request
 		return pc.handleForeignAllocation(allocationKey, applicationID, nodeID, node, alloc)
 	}
 
+	// the key identifies the request in every later message: an empty one can never be addressed again
+	if allocationKey == "" {
+		metrics.GetSchedulerMetrics().IncSchedulingError()
+		return false, false, fmt.Errorf("allocation key is empty for application %s", applicationID)
+	}
+
 	// find application
 	app := pc.getApplication(alloc.GetApplicationID())
 	if app == nil {
